@@ -97,6 +97,7 @@ fn cmd_drive(m: &BTreeMap<String, String>) {
         rustc: m.get("rustc").map(PathBuf::from),
         watchdog_s: get(m, "watchdog", 10),
         sweep: get(m, "sweep", 16),
+        dump_sessions: get(m, "dump-sessions", 0),
         out: out.clone(),
     };
     match drive::drive(&o) {
@@ -164,10 +165,23 @@ fn cmd_session(m: &BTreeMap<String, String>) {
         max_violations: 200,
         exit_on_hang: true,
         progress: m.get("progress").map(PathBuf::from),
+        keep_text: m.contains_key("dump"),
     };
     let n_reqs = plan.reqs.len();
     let n_steps = plan.steps.len();
-    exec::exec_with(&plan, opts, move |log| {
+    let dump: Option<PathBuf> = m.get("dump").map(PathBuf::from);
+    let reqs_for_dump = if dump.is_some() { plan.reqs.clone() } else { vec![] };
+    exec::exec_with(&plan, opts, move |mut log| {
+        if let Some(d) = &dump {
+            // one JSON line per distinct input that expanded: request and printed output
+            let mut s = String::new();
+            for (ri, text) in std::mem::take(&mut log.texts) {
+                let r = &reqs_for_dump[ri];
+                s.push_str(&serde_json::json!({"id": r.id(), "mode": r.mode, "attr": r.attr, "item": r.item, "out": text}).to_string());
+                s.push('\n');
+            }
+            let _ = std::fs::write(d, s);
+        }
         let res = session::SessionResult {
             params,
             meta,
@@ -192,8 +206,20 @@ fn cmd_exec_plan(m: &BTreeMap<String, String>) {
         max_violations: 50,
         exit_on_hang: true,
         progress: None,
+        keep_text: m.contains_key("dump"),
     };
-    exec::exec_with(&plan, opts, move |log| {
+    let dump: Option<PathBuf> = m.get("dump").map(PathBuf::from);
+    let reqs_for_dump = plan.reqs.clone();
+    exec::exec_with(&plan, opts, move |mut log| {
+        if let Some(d) = &dump {
+            let mut s = String::new();
+            for (ri, text) in std::mem::take(&mut log.texts) {
+                let r = &reqs_for_dump[ri];
+                s.push_str(&serde_json::json!({"id": r.id(), "mode": r.mode, "attr": r.attr, "item": r.item, "out": text}).to_string());
+                s.push('\n');
+            }
+            let _ = std::fs::write(d, s);
+        }
         let _ = std::fs::write(&out, serde_json::to_string(&log).unwrap());
     });
 }
